@@ -271,10 +271,16 @@ def main():
             v["instances"] = []; grouped_v[v["id"]] = v; violations.append(v); g = v
         g["instances"].append(v["key"])
     if args.freeze_floors:
+        # atomic replacement: other check processes may be reading these files
+        def _dump(obj, path, **kw):
+            tmp = path + ".tmp%d" % os.getpid()
+            with open(tmp, "w") as fh:
+                json.dump(obj, fh, **kw)
+            os.replace(tmp, path)
         okeys.update(new_keys)
-        json.dump(okeys, open(os.path.join(VERIF, "obligation_keys.json"), "w"), indent=0, sort_keys=True)
+        _dump(okeys, os.path.join(VERIF, "obligation_keys.json"), indent=0, sort_keys=True)
         floors.update(new_floors)
-        json.dump(floors, open(os.path.join(VERIF, "floors.json"), "w"), indent=1, sort_keys=True)
+        _dump(floors, os.path.join(VERIF, "floors.json"), indent=1, sort_keys=True)
         print("floors frozen:", json.dumps(new_floors))
 
     # ---------------- report ----------------
